@@ -25,7 +25,7 @@ func init() {
 		Run:         runC08,
 	}
 	Registry["C09"] = Set{
-		Explanation: "Decides structural clauses of the restart intensity limit: I1 units — the window test subtracts two values of the same clock unit and compares with the period multiplied by that unit's per-second factor; I2 comparison normal form — 'exceeded' is returned true only under len(restarts) > intensity (or an equivalent form) evaluated after the pruning loop, the early 'not exceeded' return is under len <= intensity, the pruning drops only from the old end and only entries whose age is strictly greater than the period, and the current restart is recorded before counting; I3 plumbing — each of the three callers passes its own restart list, its Period and its Intensity in that order, stores the returned list back, starts the child on the not-exceeded edge and on the exceeded edge terminates the children with ErrSupervisorRestartsExceeded. Added while probing: a 'not exceeded' return is dominated by len(restarts) <= intensity, and the count is never compared with intensity±k. I3 also: on the exceeded edge the recorded shutdown reason is ErrSupervisorRestartsExceeded.",
+		Explanation: "Decides structural clauses of the restart intensity limit: I1 units — the window test subtracts two values of the same clock unit and compares with the period multiplied by that unit's per-second factor; I2 comparison normal form — 'exceeded' is returned true only under len(restarts) > intensity (or an equivalent form) evaluated after the pruning loop, the early 'not exceeded' return is under len <= intensity, the pruning drops only from the old end and only entries whose age is strictly greater than the period, and the current restart is recorded before counting; I3 plumbing — each of the three callers passes its own restart list, its Period and its Intensity in that order, stores the returned list back, starts the child on the not-exceeded edge and on the exceeded edge terminates the children with ErrSupervisorRestartsExceeded. Added while probing: a 'not exceeded' return is dominated by len(restarts) <= intensity, and the count is never compared with intensity±k. I3 also: on the exceeded edge the recorded shutdown reason is ErrSupervisorRestartsExceeded. I1w the period is converted to clock units by a product computed in a 64-bit type (a narrow product wraps for periods above 65 s), checked whatever the helper's signature is.",
 		NotDecided: []string{
 			"the behaviour over timing patterns (runtime clock values)",
 			"clock jumps",
@@ -649,6 +649,39 @@ func runC09(p *load.Program, r *core.Report) {
 		return
 	}
 	fn := fname(f)
+	// ---- I1w: the conversion of the period to clock units is not done in a narrow type (whatever the signature is)
+	{
+		rule := "C09.I1w period-product-not-in-a-narrow-type"
+		r.Floor(rule, 1)
+		n := 0
+		eachInstr(f, func(in ssa.Instruction) {
+			b, ok := in.(*ssa.BinOp)
+			if !ok || b.Op != token.MUL {
+				return
+			}
+			var c int64
+			var okc bool
+			if c, okc = constInt(b.Y); !okc {
+				if c, okc = constInt(b.X); !okc {
+					return
+				}
+			}
+			if c != 1000 && c != 1000000 && c != 1000000000 {
+				return
+			}
+			n++
+			key := fmt.Sprintf("C09.I1w|%s|product#%d", fn, n)
+			inst := "the restart period is multiplied by the clock's per-second factor in a 64-bit type"
+			if w := intWidth(b.Type()); isIntegerType(b.Type()) && w < 64 {
+				r.Bad(rule, key, fn, p.Pos(in.Pos()), inst, fmt.Sprintf("the product is computed in %s (%d bits) and converted afterwards: for a period of 66 s or more it wraps — restarts that are still inside the configured period are dropped as too old and the supervisor never gives up", b.Type().String(), w))
+			} else {
+				r.OK(rule, key, fn, p.Pos(in.Pos()), inst, "product in "+b.Type().String())
+			}
+		})
+		if n == 0 {
+			r.Unk(rule, "C09.I1w|"+fn, fn, p.Pos(f.Pos()), "the period is converted to clock units by a multiplication with 10^3/10^6/10^9", "no such product found")
+		}
+	}
 	if len(f.Params) != 3 {
 		r.Unk("C09.anchors", "C09.anchors|params", fn, p.Pos(f.Pos()), "parameters (restarts, period, intensity)", "signature changed")
 		return
